@@ -6,31 +6,12 @@ Local Open Scope N_scope.
 Lemma key_eqb_eq a b : key_eqb a b = true <-> a = b.
 Proof. apply list_eqb_spec. intros; apply str_eqb_eq. Qed.
 
-(* following the last link can only lose pathnames *)
-Lemma fs_stat_lstat t cwd p : fs_stat t cwd p = true -> fs_lstat t cwd p = true.
-Proof.
-  unfold fs_stat, fs_lstat, get_path, symloop_max. cbn [stat_loop].
-  destruct (fs_get t (path_comps (resolve_rel cwd p)) (ends_with_slash (resolve_rel cwd p)));
-    [reflexivity | discriminate].
-Qed.
-
 Lemma assoc_key_in t k v : assoc_key t k = Some v -> In (k, v) t.
 Proof.
   induction t as [|[k' v'] t IH]; cbn [assoc_key]; [discriminate|].
   destruct (key_eqb k' k) eqn:E.
   - apply key_eqb_eq in E. subst. intros H. injection H as <-. left; reflexivity.
   - intros H. right. auto.
-Qed.
-
-Lemma no_links_resolve t cwd :
-  (forall k tg, ~ In (k, KLink tg) t) -> links_resolve t cwd.
-Proof.
-  intros Hno p. unfold fs_lstat, fs_stat, get_path, symloop_max. cbn [stat_loop].
-  destruct (fs_get t (path_comps (resolve_rel cwd p)) (ends_with_slash (resolve_rel cwd p))) as [k|];
-    [intros _|discriminate].
-  destruct (lookup t k) as [[| |tg]|] eqn:E; try reflexivity.
-  exfalso. destruct k; cbn [lookup] in E; [discriminate|].
-  apply assoc_key_in in E. exact (Hno _ _ E).
 Qed.
 
 (* ------------------------------------------------------------------ listings *)
